@@ -64,6 +64,8 @@ def alphabet():
     ops.append(['off', 'a', 'K'])
     ops.append(['on', 'a', 'W', None])      # a functools.wraps product around R1 (W.__wrapped__ is R1): a listener of its own
     ops.append(['off', 'a', 'W'])
+    ops.append(['on', 'a', 'U', None])      # a decorated function that keeps the function it wraps (R1) under the attribute `_`
+    ops.append(['once', 'a', 'U', None])
     return ops
 
 
@@ -174,6 +176,9 @@ class World(object):
         import functools
         wrec = self._recorder('W', None)
         self.cbs['W'] = functools.wraps(self.cbs['R1'])(lambda *a, **k: wrec(*a, **k))
+        urec = self._recorder('U', None)
+        self.cbs['U'] = lambda *a, **k: urec(*a, **k)
+        self.cbs['U']._ = self.cbs['R1']
         self.holder = Holder(self._recorder('M', None))
         self.names_of = dict((id(v), k) for k, v in self.cbs.items())
 
